@@ -112,7 +112,9 @@ def tlc(module, cfg=None, cwd=SPEC, workers=8, timeout=600, env=None, args=(), x
         depth=None, seed_=None, metadir=None, deadlock=False, dfs=False, xss=None, coverage=False):
     """Run TLC on spec/<module>.tla with spec/<cfg>. Returns TlcResult. Raises ToolError on timeout."""
     md = metadir or workdir("tlc-" + (cfg or module).replace("/", "_").replace(".cfg", "") + "-" + str(os.getpid()))
-    jopts = ["-XX:+UseParallelGC", "-Xmx" + xmx]
+    jtmp = md.rstrip("/") + ".jtmp"      # TLC leaves a tlc-<n> directory per run in java.io.tmpdir: keep it out of /tmp
+    os.makedirs(jtmp, exist_ok=True)
+    jopts = ["-XX:+UseParallelGC", "-Xmx" + xmx, "-Djava.io.tmpdir=" + jtmp]
     if xss:
         jopts.append("-Xss" + xss)
     if dfs:
@@ -142,10 +144,12 @@ def tlc(module, cfg=None, cwd=SPEC, workers=8, timeout=600, env=None, args=(), x
                            timeout=timeout, text=True, errors="replace")
     except subprocess.TimeoutExpired as ex:
         shutil.rmtree(md, ignore_errors=True)
+        shutil.rmtree(jtmp, ignore_errors=True)
         raise ToolError("TLC timeout after %ds: %s" % (timeout, " ".join(cmd[-4:])))
     finally:
         pass
     shutil.rmtree(md, ignore_errors=True)
+    shutil.rmtree(jtmp, ignore_errors=True)
     return TlcResult(p.stdout, p.returncode, time.time() - t0)
 
 
